@@ -164,6 +164,11 @@ class C15:
                                 "own_pkg": True, "pkg_deps": ["verif/base"]},
                                {"dir": "buildpacks/other", "id": "verif/other", "pkg": "pother", "bins": ["pother"], "extra": "", "aux": []}],
                       "comps": [], "foreign": [], "cwd": "buildpacks/web", "release": False, "pkgdir": "default", "seed_ids": [], "seed_kind": 0})
+        # designed: a composite whose directory is a symbolic link, packaged with everything else from the workspace root
+        cases.append({"libs": [{"dir": "buildpacks/alpha", "id": "verif/alpha", "pkg": "palpha", "bins": ["palpha"], "extra": "", "aux": []}],
+                      "comps": [{"dir": "meta/linked", "id": "verif/linked", "deps": [["lib", "verif/alpha"], ["uri", "docker://reg/img:1"]],
+                                 "uri": ".", "os": None, "link": True}],
+                      "foreign": [], "cwd": "", "release": False, "pkgdir": "default", "seed_ids": [], "seed_kind": 0})
         # designed: a composite WITHOUT libcnb: dependencies (relative path + registry reference only), packaged from its own
         # directory and from the workspace root -- its package.toml is normalised although nothing had to be packaged before it
         for cwd in ("meta/solo", ""):
@@ -207,6 +212,12 @@ class C15:
                 open(os.path.join(d, "package.toml"), "w").write('# shipped with the buildpack\n[buildpack]\nuri = "."\n\n[platform]\nos = "windows"\n' + deps)
         for C in c["comps"]:
             d = os.path.join(root, C["dir"])
+            if C.get("link"):
+                # the buildpack directory is a symbolic link to a directory kept elsewhere (outside the workspace)
+                real = os.path.join(os.path.dirname(root), "linked-store", C["dir"])
+                os.makedirs(real, exist_ok=True)
+                os.makedirs(os.path.dirname(d), exist_ok=True)
+                os.symlink(real, d)
             os.makedirs(d, exist_ok=True)
             order = "".join(f'\n[[order.group]]\nid = "{i}"\nversion = "0.1.0"\n' for k, i in C["deps"] if k == "lib") or '\n[[order.group]]\nid = "x/y"\nversion = "1.0.0"\n'
             open(os.path.join(d, "buildpack.toml"), "w").write(f'api = "0.10"\n\n[buildpack]\nid = "{C["id"]}"\nversion = "0.1.0"\n\n[[order]]\n{order}')
